@@ -4,7 +4,7 @@ CONSTANTS MaxN, MaxW, MaxFh, MaxFhLen, MaxNx, MaxUpd, EmitVectors
 VARIABLES stage, cfg
 vars == <<stage, cfg>>
 FhSets == { SetToSortSeq(S, <) : S \in { T \in SUBSET (1..MaxFh) : T # {} /\ Cardinality(T) <= MaxFhLen } }
-Init == stage = "strategy" /\ cfg = [strategy |-> "", n |-> 0, w |-> 1, fh |-> <<1>>, nx |-> 0, upd |-> 0]
+Init == stage = "strategy" /\ cfg = [strategy |-> "", n |-> 0, w |-> 1, fh |-> <<1>>, nx |-> 0, upd |-> 0, pre |-> 0]
 PickStrategy == /\ stage = "strategy"
                 /\ \E s \in {"direct", "recursive", "multioutput", "dirrec"} : cfg' = [cfg EXCEPT !.strategy = s]
                 /\ stage' = "shape"
@@ -15,9 +15,11 @@ PickFh == /\ stage = "fh"
           /\ \E f \in FhSets : cfg' = [cfg EXCEPT !.fh = f]
           /\ stage' = "extra"
 PickExtra == /\ stage = "extra"
-             /\ \E x \in 0..MaxNx, u \in 0..MaxUpd :
+             \* pre: window length of an earlier fit of the same object (0: fresh object).  Expected() does not
+             \* look at it: a fit discards whatever an earlier fit, with other parameters, left behind
+             /\ \E x \in 0..MaxNx, u \in 0..MaxUpd, pw \in {0, (cfg.w % MaxW) + 1} :
                     /\ (cfg.strategy = "dirrec" => x = 0)          \* dirrec documents no exogenous support
-                    /\ cfg' = [cfg EXCEPT !.nx = x, !.upd = u]
+                    /\ cfg' = [cfg EXCEPT !.nx = x, !.upd = u, !.pre = pw]
              /\ stage' = "done"
 Next == PickStrategy \/ PickShape \/ PickFh \/ PickExtra
 Spec == Init /\ [][Next]_vars
